@@ -5,7 +5,7 @@ use lber::common::TagClass;
 use lber::structures::{Boolean, ExplicitTag, OctetString, Sequence, Tag};
 
 use nom::branch::alt;
-use nom::bytes::complete::{tag, take_while, take_while1};
+use nom::bytes::complete::{tag, tag_no_case, take_while, take_while1};
 use nom::character::complete::digit1;
 use nom::character::{is_alphabetic, is_alphanumeric, is_hex_digit};
 use nom::combinator::{map, map_res, opt, peek, recognize, verify};
@@ -317,7 +317,7 @@ fn extensible(i: &[u8]) -> IResult<&[u8], Tag> {
 
 fn attr_dn_mrule(i: &[u8]) -> IResult<&[u8], Tag> {
     let (i, attr) = attributedescription(i)?;
-    let (i, dn) = opt(terminated(tag(b":dn"), peek(tag(b":"))))(i)?;
+    let (i, dn) = opt(terminated(tag_no_case(b":dn"), peek(tag(b":"))))(i)?;
     let (i, mrule) = opt(preceded(tag(b":"), attributetype))(i)?;
     let (i, _) = tag(b":=")(i)?;
     let (i, value) = unescaped(i)?;
@@ -326,7 +326,7 @@ fn attr_dn_mrule(i: &[u8]) -> IResult<&[u8], Tag> {
 
 fn dn_mrule(i: &[u8]) -> IResult<&[u8], Tag> {
     let (i, dn) = opt(terminated(
-        tag(b":dn"),
+        tag_no_case(b":dn"),
         peek(preceded(tag(b":"), attributetype)),
     ))(i)?;
     let (i, mrule) = preceded(tag(b":"), attributetype)(i)?;
